@@ -660,6 +660,12 @@ class SCML_Supervised(_BaseSCML, TransformerMixin):
         lda.fit(X[idx_set[s][c, :]], y[idx_set[s][c, :]])
         start, finish = start_finish_indices[s, c:c+2]
         normalized_scalings = normalize(lda.scalings_.T)
+        if normalized_scalings.shape[0] < num_eig:
+          # LDA keeps fewer directions when the class means of this region
+          # are (numerically) rank deficient: repeat the ones it found, so
+          # that every region still yields num_eig unit-norm bases
+          normalized_scalings = np.resize(normalized_scalings,
+                                          (num_eig, n_features))
         try:
           basis[start: finish, :] = normalized_scalings
         except ValueError:
